@@ -511,17 +511,17 @@ def _serialize_duration(value: Duration) -> str:
     result = "-" if signs.pop() else ""
     result += "P"
     if value.years:
-        result += "{:.0f}Y".format(abs(value.years))
+        result += "{:d}Y".format(abs(int(value.years)))
     if value.months:
-        result += "{:.0f}M".format(abs(value.months))
+        result += "{:d}M".format(abs(int(value.months)))
     if value.days:
-        result += "{:.0f}D".format(abs(value.days))
+        result += "{:d}D".format(abs(int(value.days)))
 
     time = ""
     if value.hours:
-        time += "{:.0f}H".format(abs(value.hours))
+        time += "{:d}H".format(abs(int(value.hours)))
     if value.minutes:
-        time += "{:.0f}M".format(abs(value.minutes))
+        time += "{:d}M".format(abs(int(value.minutes)))
     if value.seconds or value.microseconds:
         time += "{:.8g}S".format(decimal.Decimal(abs(value.seconds))
                                  + decimal.Decimal(abs(value.microseconds)) / 1000000)
